@@ -160,7 +160,7 @@ func (s *v4Server) ResetLeases(leases []*dhcpsvc.Lease) (err error) {
 	s.leases = nil
 
 	for _, l := range leases {
-		if !l.IsStatic {
+		if !l.IsStatic && l.Hostname != "" {
 			l.Hostname = s.validHostnameForClient(l.Hostname, l.IP)
 		}
 		err = s.addLease(l)
